@@ -81,7 +81,8 @@ def main():
                                traceback.format_exc()[-1500:], 'script': None, 'known': None, 'harness_error': True})
     with open(a.out, 'w') as f:
         json.dump({'evaluations': ctx.evaluations, 'distinct': len(ctx.distinct), 'violations': ctx.violations,
-                   'samples': ctx.samples, 'rule': ctx.rule, 'bounds': ctx.bounds}, f, default=str)
+                   'samples': ctx.samples, 'rule': ctx.rule, 'bounds': ctx.bounds,
+                   'traces': getattr(ctx, 'traces', None)}, f, default=str)
 
 
 if __name__ == '__main__':
